@@ -116,52 +116,6 @@ func (g *vC02Gen) qclass() uint16 {
 	return 1
 }
 
-// candidate question names around a zone: owners, ENTs, names below cuts,
-// wildcard expansions, immediate canonical neighbours of every owner, the
-// apex, names outside.
-func (g *vC02Gen) candidates(z *vC02Zone) []vC02Name {
-	var c []vC02Name
-	add := func(n vC02Name) { c = append(c, n) }
-	for _, nd := range z.nodes {
-		add(nd.name)
-		for k := len(z.apex); k < len(nd.name); k++ {
-			add(vC02Suffix(nd.name, k)) // ancestors: ENTs or owners
-		}
-		add(vC02Child(g.poolLabel(), nd.name))
-		add(vC02Child([]byte{0}, nd.name)) // canonical successor of the owner
-		if vC02CutTypes(nd.types) {
-			add(vC02Child(g.poolLabel(), vC02Child(g.poolLabel(), nd.name)))
-		}
-		if len(nd.name) > len(z.apex) {
-			par := nd.name[1:]
-			l := append([]byte(nil), nd.name[0]...)
-			// neighbours of the leaf label
-			l2 := append(append([]byte(nil), l...), 0)
-			add(vC02Child(l2, par))
-			if l[len(l)-1] > 0 {
-				l3 := append([]byte(nil), l...)
-				l3[len(l3)-1]--
-				add(vC02Child(append(l3, 0xFF), par))
-			}
-			if l[0] == '*' && len(l) == 1 {
-				add(vC02Child(g.poolLabel(), par))
-				add(vC02Child(g.poolLabel(), vC02Child(g.poolLabel(), par)))
-			}
-		}
-	}
-	add(z.apex)
-	add(vC02Child(g.poolLabel(), z.apex))
-	add(vC02Child(g.poolLabel(), vC02Child(g.poolLabel(), z.apex)))
-	add(vC02Child(vC02Star, z.apex))
-	if len(z.apex) > 0 {
-		add(z.apex[1:])
-		sib := append([]byte(nil), z.apex[0]...)
-		sib[len(sib)-1] ^= 1
-		add(vC02Child(sib, z.apex[1:]))
-	}
-	return c
-}
-
 func TestVerifC02Nsec(t *testing.T) {
 	tr := vC02Open(t)
 	defer tr.f.Close()
